@@ -342,7 +342,7 @@ def record(problem, timeout=120, inject=None):
             rec.ev("obj", rec.pid(x))
             rec.user_calls.append(("obj", np.array(x, float)))
             v = fun(x, *args)
-            rec.returns.append(("obj", None, rec.pid(x), v))
+            rec.returns.append(("obj", None, rec.pid(x), v, len(rec.events)))
             return v
     cons = []
     j = 0
@@ -352,7 +352,7 @@ def record(problem, timeout=120, inject=None):
                 rec.ev("con", _j, rec.pid(x))
                 rec.user_calls.append(("con", np.array(x, float)))
                 v = _f(x)
-                rec.returns.append(("con", _j, rec.pid(x), np.array(v, float)))
+                rec.returns.append(("con", _j, rec.pid(x), np.array(v, float), len(rec.events)))
                 return v
             cons.append(NonlinearConstraint(spy, c.lb, c.ub))
             j += 1
@@ -361,7 +361,7 @@ def record(problem, timeout=120, inject=None):
                 rec.ev("con", _j, rec.pid(x))
                 rec.user_calls.append(("con", np.array(x, float)))
                 v = _f(x, *a)
-                rec.returns.append(("con", _j, rec.pid(x), np.array(v, float)))
+                rec.returns.append(("con", _j, rec.pid(x), np.array(v, float), len(rec.events)))
                 return v
             d = dict(c)
             d["fun"] = spy
@@ -409,13 +409,15 @@ def record(problem, timeout=120, inject=None):
     return out
 
 
-def true_violation(out, x, pid):
+def true_violation(out, x, pid, upto=None):
     """true maximum violation of the constraints AS THE USER STATED THEM at the user point `x` (point id `pid`): bounds
     and linear constraints evaluated in user space, nonlinear ones from the values the user functions returned at that
     point.  Returns (violation or NaN, scale of the linear terms, half-width allowance of near-equalities, complete)"""
     from scipy.optimize import LinearConstraint
     rec = out["rec"]
-    calls = [r for r in rec.returns if r[2] == pid] if pid is not None else []
+    # `upto`: only what the user functions had returned by that position of the event list (a function of the call count
+    # rather than of x may return something else at the same point later on)
+    calls = [r for r in rec.returns if r[2] == pid and (upto is None or r[4] <= upto)] if pid is not None else []
     complete = True
     viol, scale = 0.0, 1.0
     spec = out["spec"]
@@ -487,14 +489,14 @@ def truth_all(out, problem):
     checked, bad = 0, None
     upid = None
     k = -1
-    for e in rec.events:
+    for pos, e in enumerate(rec.events):
         if e.startswith("evalBegin "):
             upid = int(e.split()[2])
             k += 1
         elif e.startswith("val ") and upid is not None:
             v = b2f(int(e.split()[2]))
             x = rec.points[upid]
-            tv, scale, slack, complete = true_violation(out, x, upid)
+            tv, scale, slack, complete = true_violation(out, x, upid, upto=pos + 1)
             if not complete:
                 continue
             checked += 1
